@@ -260,7 +260,7 @@ Inductive target_step (i : nat) (t : tdef) (b b' : bstate) : Prop :=
                  status_of b' i = TExecuted ->
                  dep_hashes s b (td_deps t) = Some dh -> b_cache b1 = b_cache b -> b_exec b1 = b_exec b ->
                  w_ext (b_world b1) = w_ext (b_world b) ->
-                 exec_ok s t (key_of H s t dh) (label_in (td_label t) (c_taint (b_cache b))) b1 b3 ->
+                 exec_ok cfg s t (key_of H s t dh) (label_in (td_label t) (c_taint (b_cache b))) b1 b3 ->
                  b' = mark b3 i TExecuted -> target_step i t b b'.
 
 Lemma target_step_at i t : i < n -> node_at s i = Some (NTarget t) -> target_step i t (P i) (P (S i)).
@@ -351,7 +351,8 @@ Theorem executed_post i t :
   (forall o, In o (td_outs t) -> exists x, ws_get (out_path t o) (w_ws (b_world (P (S i)))) = PFile x) /\
   (null (td_cmd t) = false ->
      exists w0, w_ext w0 = w_ext (b_world (P i)) /\ run_command s t w0 = Some (b_world (P (S i)))) /\
-  (exists dh res, dep_hashes s (P i) (td_deps t) = Some dh /\
+  (cfg_cache cfg = true ->
+   exists dh res, dep_hashes s (P i) (td_deps t) = Some dh /\
                   rlookup (key_of H s t dh) (c_results (b_cache (P (S i)))) = Some res).
 Proof.
   intros Hi Hn Hst. rewrite final_status in Hst by exact Hi.
@@ -360,7 +361,7 @@ Proof.
   - destruct Hok as [K1 K2 K3 K4 K5 K6 K7 K8 K9 K10 K11].
     rewrite Hb'. autorewrite with bst. split; [exact K2|]. split; [exact K3|]. split.
     + intro Hc. rewrite Hc in K1. exists (b_world b1). split; [exact E1 | exact K1].
-    + destruct K4 as [res Hr]. exists dh, res. split; [exact Hd | exact Hr].
+    + intro Hon. rewrite Hon in K4. destruct K4 as [res Hr]. exists dh, res. split; [exact Hd | exact Hr].
 Qed.
 
 (* the only way a step of a target node changes the stored results is a successful execution *)
@@ -385,7 +386,7 @@ Proof.
   - rewrite E in Hst'. rewrite prefix_status_before in Hst'; [discriminate | lia | lia].
   - destruct (prefix_exec_mono (S i) n ltac:(lia) (le_n _)) as [extra Hx].
     rewrite build_is_prefix. cbn [br_exec]. fold n. fold (P n). rewrite Hx. apply in_or_app. left.
-    rewrite Hb'. autorewrite with bst. rewrite (eo_exec _ _ _ _ _ _ Hok). unfold exec_start. rewrite Hc.
+    rewrite Hb'. autorewrite with bst. rewrite (eo_exec _ _ _ _ _ _ _ Hok). unfold exec_start. rewrite Hc.
     rewrite b_exec_add_exec. apply in_or_app. right. left. reflexivity.
 Qed.
 
@@ -399,7 +400,7 @@ Proof.
   destruct (target_step_at i t Hi Hn) as [E|Hs _ _|Hs _|Hs _|dh b1 b3 Hs Hd C1 X1 E1 Hok Hb']; try congruence.
   - rewrite E in Hst'. rewrite prefix_status_before in Hst'; [discriminate | lia | lia].
   - assert (Hafter : label_in (td_label t) (c_taint (b_cache (P (S i)))) = false).
-    { rewrite Hb'. autorewrite with bst. rewrite (eo_taints _ _ _ _ _ _ Hok), C1.
+    { rewrite Hb'. autorewrite with bst. rewrite (eo_taints _ _ _ _ _ _ _ Hok), C1.
       destruct (label_in (td_label t) (c_taint (b_cache (P i)))) eqn:Et; [apply label_in_remove | exact Et]. }
     rewrite build_is_prefix. cbn [br_cache]. fold n. fold (P n).
     destruct (label_in (td_label t) (c_taint (b_cache (P n)))) eqn:Ef; [|reflexivity].
@@ -447,7 +448,7 @@ Proof.
     { destruct Hc as [[_ [_ Fx _]] | [[_ [_ _ _ _ _ _ R7 _]] | [_ (dh & b1 & b3 & Hd & C1 & X1 & E1 & Hok & Hb')]]].
       - exact Fx.
       - left. exact R7.
-      - rewrite Hb', b_exec_mark, (eo_exec _ _ _ _ _ _ Hok). unfold exec_start.
+      - rewrite Hb', b_exec_mark, (eo_exec _ _ _ _ _ _ _ Hok). unfold exec_start.
         destruct (null (td_cmd t)); [left; exact X1 | right; rewrite b_exec_add_exec, X1; reflexivity]. }
     assert (Hst : forall x, b_exec (stopped x) = b_exec x) by reflexivity.
     destruct Hpt as [E | [E _]]; rewrite E, ?Hst; (destruct Hx as [Hx|Hx]; [left; exact Hx | right; exists t; auto]).
@@ -482,6 +483,108 @@ Theorem no_exit0_no_result cfg s i t key tainted b :
 Proof.
   intros Hc Hr. unfold Build.execute. rewrite Hc. autorewrite with bst. rewrite Hr.
   eexists. split; [reflexivity|]. reflexivity.
+Qed.
+
+(* ================================================================== C13: a disabled cache is not written *)
+(* c' holds the stored results and blobs of c, and no taint that c does not hold *)
+Definition cache_kept (c c' : cache) : Prop :=
+  c_results c' = c_results c /\ c_cas c' = c_cas c /\
+  (forall l, label_in l (c_taint c') = true -> label_in l (c_taint c) = true).
+
+Lemma cache_kept_refl c : cache_kept c c.
+Proof. repeat split; auto. Qed.
+
+Lemma cache_kept_trans a b c : cache_kept a b -> cache_kept b c -> cache_kept a c.
+Proof. intros (R1 & C1 & T1) (R2 & C2 & T2). repeat split; [congruence | congruence | auto]. Qed.
+
+Lemma cache_kept_eq c c' : c' = c -> cache_kept c c'.
+Proof. intros ->. apply cache_kept_refl. Qed.
+
+Lemma execute_cache_off cfg s i t key tn b ok b' :
+  cfg_cache cfg = false -> execute H cfg s i t key tn b = (ok, b') -> cache_kept (b_cache b) (b_cache b').
+Proof.
+  intros Hc E. destruct ok.
+  - apply (execute_ok H) in E. destruct E as [_ _ _ K4 _ _ K7 _ _ _ _]. rewrite Hc in K4.
+    destruct K4 as [Kr Kc]. split; [exact Kr|]. split; [exact Kc|].
+    intros l Hl. rewrite K7 in Hl. destruct tn; [eapply label_in_remove_mono; exact Hl | exact Hl].
+  - apply (execute_fail H) in E as (F1 & _). apply cache_kept_eq, F1.
+Qed.
+
+Lemma load_outputs_cache_kept i t r b ok b' :
+  load_outputs H i t r b = (ok, b') -> cache_kept (b_cache b) (b_cache b').
+Proof. intro E. apply (load_outputs_frame H) in E as (Fc & _). apply cache_kept_eq, Fc. Qed.
+
+Lemma load_dep_outputs_cache_off cfg s : cfg_cache cfg = false -> forall f ds b ok b',
+  load_dep_outputs H f cfg s ds b = (ok, b') -> cache_kept (b_cache b) (b_cache b').
+Proof.
+  intro Hc. induction f as [|f IH]; intros ds b ok b' E; cbn [load_dep_outputs] in E.
+  { inversion E; subst. apply cache_kept_refl. }
+  destruct ds as [|d0 ds']; [inversion E; subst; apply cache_kept_refl|].
+  destruct (resolve s d0) as [[d dt]|]; [|eapply IH; exact E].
+  destruct (rt_loaded (get_rt b d)); [eapply IH; exact E|].
+  destruct (rt_key (get_rt b d)) as [dkey|]; [|inversion E; subst; apply cache_kept_refl].
+  destruct (rlookup dkey (c_results (b_cache b))) as [r|]; [|eapply execute_cache_off; eauto].
+  destruct (load_outputs H d dt r b) as [ok1 b1] eqn:El. apply load_outputs_cache_kept in El.
+  destruct (negb ok1 || (td_nocache dt && negb (rt_loaded (get_rt b1 d)))).
+  - destruct (load_dep_outputs H f cfg s (td_deps dt) b1) as [ok2 b2] eqn:E2. apply IH in E2.
+    pose proof (cache_kept_trans _ _ _ El E2) as K12.
+    destruct ok2; cbn [negb] in E; [|inversion E; subst; exact K12].
+    destruct (execute H cfg s d dt dkey false b2) as [ok3 b3] eqn:E3.
+    apply (execute_cache_off cfg s d dt dkey false b2 ok3 b3 Hc) in E3.
+    pose proof (cache_kept_trans _ _ _ K12 E3) as K13.
+    destruct ok3; [|inversion E; subst; exact K13].
+    apply IH in E. eapply cache_kept_trans; eauto.
+  - apply IH in E. eapply cache_kept_trans; eauto.
+Qed.
+
+Lemma process_target_cache_off cfg s i t b :
+  cfg_cache cfg = false -> cache_kept (b_cache b) (b_cache (process_target cfg s i t b)).
+Proof.
+  intro Hc. unfold Build.process_target.
+  destruct (dep_hashes s b (td_deps t)) as [dh|]; [|apply cache_kept_refl]. cbv zeta.
+  set (b0 := set_rt b i _).
+  assert (K0 : cache_kept (b_cache b) (b_cache b0)) by apply cache_kept_refl.
+  clearbody b0.
+  match goal with |- context [let '(hit, b1) := ?X in _] => destruct X as [hit b1] eqn:Eh end.
+  assert (Hh : hit = false /\ b1 = b0).
+  { destruct (rlookup _ (c_results (b_cache b0))) as [res|]; [|inversion Eh; auto].
+    rewrite Hc, andb_false_r in Eh. cbn [andb] in Eh. inversion Eh; auto. }
+  destruct Hh as [-> ->].
+  match goal with |- context [let '(okd, b2) := ?X in _] => destruct X as [okd b2] eqn:Ed end.
+  assert (K2 : cache_kept (b_cache b0) (b_cache b2)).
+  { destruct (cfg_mode cfg).
+    - inversion Ed; subst. apply cache_kept_refl.
+    - eapply load_dep_outputs_cache_off; eauto. }
+  destruct okd; cbn [negb]; [|rewrite b_cache_mark; eapply cache_kept_trans; eauto].
+  match goal with |- context [let '(ok, b3) := ?X in _] => destruct X as [ok b3] eqn:Ee end.
+  rewrite b_cache_mark. apply (execute_cache_off _ _ _ _ _ _ _ _ _ Hc) in Ee.
+  eapply cache_kept_trans; [exact K0|]. eapply cache_kept_trans; eauto.
+Qed.
+
+Lemma process_node_cache_off cfg s sel b i :
+  cfg_cache cfg = false -> cache_kept (b_cache b) (b_cache (process_node cfg s sel b i)).
+Proof.
+  intro Hc. unfold Build.process_node.
+  destruct (negb (existsb (Nat.eqb i) sel)); [apply cache_kept_refl|].
+  destruct (b_stop b); [apply cache_kept_refl|].
+  destruct (node_at s i) as [nd|]; [|apply cache_kept_refl].
+  destruct (negb (forallb (dep_ok b) (node_deps nd))); [apply cache_kept_refl|].
+  destruct nd as [t|l a]; [|apply cache_kept_refl].
+  pose proof (process_target_cache_off cfg s i t b Hc) as K.
+  destruct (rt_status (get_rt (Build.process_target H cfg s i t b) i)); try exact K.
+  destruct (cfg_failfast cfg); exact K.
+Qed.
+
+(* every state, every load_outputs mode: a build with the cache disabled leaves the stored results and the
+   blobs as they are (it neither reads nor writes them) and adds no taint *)
+Theorem cache_off_leaves_cache cfg s roots w c :
+  cfg_cache cfg = false -> cache_kept c (br_cache (build cfg s roots w c)).
+Proof.
+  intro Hc. unfold Build.build. cbn [br_cache].
+  set (b0 := mkB w c _ _ _). change c with (b_cache b0) at 1. clearbody b0.
+  generalize (seq 0 (length (s_nodes s))). intro l. revert b0.
+  induction l as [|i l IH]; intro b0; cbn [fold_left]; [apply cache_kept_refl|].
+  eapply cache_kept_trans; [apply (process_node_cache_off cfg s (selection s roots) b0 i Hc) | apply IH].
 Qed.
 
 End Lift.
